@@ -40,6 +40,7 @@ KINDS = {
     'wind': (['wind'], None, False),
     'height_pressure': (['height_pressure', 'zp'], None, False),
     'bpch': (['bpch'], None, False),
+    'bpch_bx': (['bpch', 'bxhght.bpch'], None, False),
     'landuse': (['landuse', 'lu'], None, False),
     'usr': (['usr'], None, False),
     'garbage': (['txt', 'dat'], None, False),
@@ -54,7 +55,7 @@ USR_MAGIC = b'USR1'
 def gen_config(rng, tier):
     kinds = rng.sample(['uamiv', 'boundary', 'one3d', 'icartt', 'nc3', 'nc4',
                         'ioapi_nc', 'temperature', 'usr', 'garbage', 'empty',
-                        'cloud_rain', 'wind', 'height_pressure', 'bpch', 'landuse'],
+                        'cloud_rain', 'wind', 'height_pressure', 'bpch', 'bpch_bx', 'landuse'],
                        rng.randrange(3, 8))
     for must in rng.sample(['uamiv', 'one3d', 'nc3', 'icartt', 'ioapi_nc'], 2):
         if must not in kinds:
@@ -271,7 +272,7 @@ def _mkspec(rng, kind):
                 'nz': rng.randrange(2, 4), 'nt': rng.randrange(2, 4),
                 'sdate': 2002154, 'stime': 0., 'nland': 11,
                 'extra': rng.choice([[], ['LAI', 'TOPO']])}
-    if kind == 'bpch':
+    if kind in ('bpch', 'bpch_bx'):
         return {'nt': rng.randrange(1, 3), 'ni': rng.randrange(1, 4), 'nj': rng.randrange(1, 4),
                 'nl': rng.randrange(1, 3)}
     if kind in ('one3d', 'temperature'):
@@ -311,12 +312,13 @@ def _write(kind, spec, path):
     elif kind == 'landuse':
         b, _ = camx.encode_landuse(camx.landuse_from_spec(spec))
         open(path, 'wb').write(b)
-    elif kind == 'bpch':
+    elif kind in ('bpch', 'bpch_bx'):
         times = []
+        cat = 'IJ-AVG-$' if kind == 'bpch' else 'BXHGHT-$'
         for t in range(spec['nt']):
             a = (np.arange(spec['nl'] * spec['nj'] * spec['ni'], dtype='f4') + 1 + 100 * t
                  ).reshape(spec['nl'], spec['nj'], spec['ni']) * 1e-9
-            times.append([{'category': 'IJ-AVG-$', 'tracer': 1, 'unit': 'v/v', 'tau0': 100. + t,
+            times.append([{'category': cat, 'tracer': 1, 'unit': 'v/v', 'tau0': 100. + t,
                            'tau1': 101. + t, 'start': (3, 4, 1), 'data': a}])
         b, _ = bpchcodec.encode({'modelname': 'GEOS5_47L', 'modelres': (5.0, 4.0),
                                  'halfpolar': 1, 'center180': 1, 'times': times})
@@ -324,9 +326,11 @@ def _write(kind, spec, path):
         d = os.path.dirname(path)
         if not os.path.exists(os.path.join(d, 'tracerinfo.dat')):
             open(os.path.join(d, 'tracerinfo.dat'), 'w').write(bpchcodec.tracerinfo_text(
-                [{'name': 'O3', 'id': 1, 'scale': 1e9, 'unit': 'ppbv'}]))
+                [{'name': 'O3', 'id': 1, 'scale': 1e9, 'unit': 'ppbv'},
+                 {'name': 'BXHEIGHT', 'id': 24001, 'scale': 1.0, 'unit': 'm'}]))
             open(os.path.join(d, 'diaginfo.dat'), 'w').write(bpchcodec.diaginfo_text(
-                [{'offset': 0, 'category': 'IJ-AVG-$', 'comment': 'stub'}]))
+                [{'offset': 0, 'category': 'IJ-AVG-$', 'comment': 'stub'},
+                 {'offset': 24000, 'category': 'BXHGHT-$', 'comment': 'box heights'}]))
     elif kind == 'icartt':
         open(path, 'wb').write(icartt.encode(icartt.doc_from_spec(spec)))
     elif kind == 'nc3':
